@@ -975,7 +975,7 @@ LEVEL_NOTE = ("Trusted: Coq kernel, extraction (ExtrOcamlBasic) reduced by an in
               "code into Model/PathSan.v + Model/PathSanServe.v + Model/PathSanPipe.v as validated by the differential runs, the POSIX "
               "path-resolution model (no symlinks), the pipeline harness incl. its inotify / strace probes. No axioms. Two defects repaired on "
               "the way: sanitize tested the undecoded text when the decoding was not UTF-8 (3565dd3); Options::get_errors_dir returned "
-              "public_data_dir, so a custom public directory moved the error pages into it and errors_dir was ignored (741adef). Observed, "
+              "public_data_dir, so a custom public directory moved the error pages into it and errors_dir was ignored (fbca956). Observed, "
               "not a violation of this property: a request target that is not in origin form is glued to the Host header ('GET "
               "http://localhost/x' has the path '//localhost/x' and is refused with 400, 'GET *' and 'OPTIONS *' are answered as '/', "
               "'GET ../secret.txt' as '/secret.txt' of the host 'localhost..'): the path always starts at the target's first '/' and is "
